@@ -78,7 +78,7 @@ fn certainly_ill_formed(line: &str) -> Option<&'static str> {
 
 pub fn run(tier: Tier) -> i32 {
     let rep = Report::new("C17", tier, "model_checking");
-    rep.set_rule("SCOPE: (forms) utterances x {&[&str], &[String], Vec<String>, &[&str; N], Vec<Label>} x a blank line inserted at every position x time stamps present/absent with alignment off, and time-stamped lines with blank lines at every position with alignment on, waveforms compared bit-exactly; (faults) 3 base lines (plain label, label with times, label with fractional times): every single-character deletion, duplication, and substitution/insertion from a 30-symbol alphabet at every position, every prefix truncation, every token deletion/duplication, 14 special time tokens; thorough: all pairs of substitutions on a 40-character window; oracle: never a panic, Err required for certainly ill-formed lines (two tokens, time rejected by f64::from_str, missing phoneme separator or /A:../K: marker); distinct = distinct corrupted line; non-trivial = line differs from the base");
+    rep.set_rule("SCOPE: (forms) utterances x {&[&str], &[String], Vec<String>, &[&str; N], Vec<Label>} x a blank line inserted at every position x time stamps present/absent with alignment off, and time-stamped lines with blank lines at every position with alignment on, waveforms compared bit-exactly; (faults) 5 base lines (plain label, label with times, label with fractional times, and two already ill-formed ones: one time stamp deleted, /K: section deleted): every single-character deletion, duplication, and substitution/insertion from a 30-symbol alphabet at every position, every prefix truncation, every token deletion/duplication, 14 special time tokens; thorough: all pairs of substitutions on a 40-character window; oracle: never a panic, Err required for certainly ill-formed lines (two tokens, time rejected by f64::from_str, missing phoneme separator or /A:../K: marker); distinct = distinct corrupted line; non-trivial = line differs from the base");
     rep.assume("single faults (pairs on one window in the thorough tier); lines that are not certainly ill-formed may be accepted or rejected");
     let corpus = labels::corpus();
     let tiny = engine_from_bytes(&GenCfg { nstate: 2, ..GenCfg::default() }.bytes()).expect("generated voice");
@@ -158,7 +158,15 @@ pub fn run(tier: Tier) -> i32 {
     }
     // ---------- faults ----------
     let alphabet: Vec<String> = vec![" ", "\t", "\0", "/", ":", "+", "-", "=", "^", "_", "!", "#", "@", "|", "&", "%", "0", "9", "x", "a", "A", "Z", ".", "e", "E", "*", "?", "\"", "\u{3042}", "\u{7f}"].into_iter().map(String::from).collect();
-    let bases: Vec<String> = vec![corpus[41].clone(), format!("0 3000000 {}", corpus[42]), format!("1234.5 2.5e6 {}", corpus[1])];
+    // three well-formed bases, and two that are already ill-formed (every fault on them is a double fault of the
+    // original line): a two-token line (one time stamp deleted) and a timed line whose label lost its /K: section
+    let bases: Vec<String> = vec![
+        corpus[41].clone(),
+        format!("0 3000000 {}", corpus[42]),
+        format!("1234.5 2.5e6 {}", corpus[1]),
+        format!("3000000 {}", corpus[42]),
+        format!("0 3000000 {}", corpus[42].split("/K:").next().unwrap()),
+    ];
     let mut lines: Vec<String> = Vec::new();
     for b in &bases {
         let chars: Vec<(usize, char)> = b.char_indices().collect();
@@ -270,7 +278,7 @@ pub fn run(tier: Tier) -> i32 {
         }
     });
     // the uncorrupted bases must be accepted
-    for b in &bases {
+    for b in bases.iter().take(3) {
         rep.eval(1);
         if synth(&tiny, &[b.clone()]).is_err() {
             rep.violation("base-rejected", "uncorrupted base line rejected", json!({"line": b}));
